@@ -822,12 +822,128 @@ func runQLive(kind string, n int) qLive {
 	return res
 }
 
+
+// ---------------------------------------------------------------- stress (real preemption, no hooks)
+
+type qStress struct {
+	Queue string  `json:"queue"`
+	NC    int     `json:"nc"`
+	NP    int     `json:"np"`
+	K     int     `json:"k"`
+	Got   [][]int `json:"got"`  // per consumer: ids in the order its polls returned them
+	Ms    float64 `json:"ms"`   // time from the last add returning to the last packet being returned
+	Stuck bool    `json:"stuck"` // not everything was returned within the deadline
+	QLen  int     `json:"qlen"` // queue length when the run was declared stuck / finished
+}
+
+// runQStress: np producers add k packets each (ids p*1000+i) with random yields; nc consumers poll in
+// a loop (as pollAndSend / consecutive poll requests do).  No hook handler is installed.  Nothing but
+// the queue's own signalling may deliver the packets: the poll timeout is 60 s, the deadline 3 s.
+func runQStress(queue string, nc, np, k int, rnd *vk.Rand) qStress {
+	res := qStress{Queue: queue, NC: nc, NP: np, K: k, Got: make([][]int, nc)}
+	var ut qUnderTest
+	if queue == "poll" {
+		ut = pollUT{polling.VerifNewPollQueue()}
+	} else {
+		ut = packetUT{sio.VerifNewPacketQueue()}
+	}
+	var mu sync.Mutex
+	total := 0
+	var lastRet time.Time
+	stop := make(chan struct{})
+	var cwg sync.WaitGroup
+	for c := 0; c < nc; c++ {
+		c := c
+		cwg.Add(1)
+		go func() {
+			defer cwg.Done()
+			for {
+				select {
+				case <-stop:
+					return
+				default:
+				}
+				r := ut.poll(false)
+				if r.Cl {
+					return
+				}
+				if len(r.P) > 0 {
+					now := time.Now()
+					mu.Lock()
+					for _, id := range r.P {
+						if id != 9999 {
+							res.Got[c] = append(res.Got[c], id)
+							total++
+						}
+					}
+					lastRet = now
+					mu.Unlock()
+				}
+			}
+		}()
+	}
+	var pwg sync.WaitGroup
+	for p := 1; p <= np; p++ {
+		p := p
+		pr := rnd.Fork()
+		pwg.Add(1)
+		go func() {
+			defer pwg.Done()
+			for i := 0; i < k; i++ {
+				switch pr.Intn(4) {
+				case 0:
+					runtime.Gosched()
+				case 1:
+					time.Sleep(time.Duration(pr.Intn(30)) * time.Microsecond)
+				}
+				ut.add([]int{p*1000 + i})
+			}
+		}()
+	}
+	pwg.Wait()
+	lastAdd := time.Now()
+	deadline := lastAdd.Add(3 * time.Second)
+	for {
+		mu.Lock()
+		done := total == np*k
+		mu.Unlock()
+		if done {
+			break
+		}
+		if time.Now().After(deadline) {
+			res.Stuck = true
+			break
+		}
+		time.Sleep(100 * time.Microsecond)
+	}
+	res.QLen, _, _, _ = ut.lens()
+	mu.Lock()
+	if lastRet.After(lastAdd) {
+		res.Ms = float64(lastRet.Sub(lastAdd)) / float64(time.Millisecond)
+	}
+	mu.Unlock()
+	// stop the consumers: wake them until all have left
+	close(stop)
+	fin := make(chan struct{})
+	go func() { cwg.Wait(); close(fin) }()
+	for {
+		select {
+		case <-fin:
+			return res
+		default:
+			ut.closeQ()
+			ut.add([]int{9999})
+			time.Sleep(200 * time.Microsecond)
+		}
+	}
+}
+
 // ---------------------------------------------------------------- main
 
 func queuesMain(args []string) error {
 	fs := flag.NewFlagSet("queues", flag.ExitOnError)
-	_ = fs.Uint64("seed", 1, "")
-	mode := fs.String("mode", "forced", "forced|live|count")
+	seed := fs.Uint64("seed", 1, "")
+	mode := fs.String("mode", "forced", "forced|live|stress|count")
 	queue := fs.String("queue", "poll", "poll|packet")
 	tier := fs.String("tier", "quick", "quick|thorough")
 	n := fs.Int("n", 3, "live: number of runs per kind")
@@ -846,6 +962,18 @@ func queuesMain(args []string) error {
 		for i := 0; i < *n; i++ {
 			out.Put(runQLive("parked", i))
 			out.Put(runQLive("window", i))
+		}
+		return nil
+	case "stress":
+		polling.VerifSetYieldHandler(nil)
+		rnd := vk.NewRand(*seed)
+		for i := 0; i < *n; i++ {
+			for _, q := range []string{"poll", "packet"} {
+				out.Put(runQStress(q, 1, 1+rnd.Intn(3), 20+rnd.Intn(60), rnd.Fork()))
+				if i%3 == 0 {
+					out.Put(runQStress(q, 2, 1+rnd.Intn(2), 20+rnd.Intn(60), rnd.Fork()))
+				}
+			}
 		}
 		return nil
 	case "forced", "count":
